@@ -23,6 +23,10 @@ EXPLANATION = (
     "decided: numeric agreement with published match points.")
 
 
+class UnexpectedParse(AnalysisError):
+    """a string other than the two solvent formulas was handed to the formula parser"""
+
+
 COMPOUND_STRINGS = {}      # string -> [builder(table), tables it was parsed with ...]
 
 
@@ -44,7 +48,7 @@ def setup(ctx, energy_dependent=()):
             hyd = Hh if mm.group(1) == "H2O" else Dd
             kw_ = {"natural_density" if mm.group(3) == "n" else "density": sp.Rational(mm.group(2))}
             return I_.call(fm, [{hyd: sp.Integer(2), Oo: sp.Integer(1)}], kw_)
-        raise AnalysisError(f"unexpected formula string {s!r} reaches the parser in the D2O routines")
+        raise UnexpectedParse(f"unexpected formula string {s!r} reaches the parser in the D2O routines")
     w = neutron_world(ctx, stubs={"formulas.parse_formula": parsed}, energy_dependent=energy_dependent)
     w.I.module_cache[("core", "PUBLIC_TABLE")] = w.table
     # the elements of the abstract table that the routines look up by name
